@@ -7,7 +7,9 @@ import (
 	"crypto/rsa"
 	"crypto/sha256"
 	"encoding/base64"
+	"encoding/hex"
 	"encoding/json"
+	"strconv"
 	"strings"
 	"time"
 
@@ -265,7 +267,9 @@ func (r *run) jwtHS() {
 		if ci < 3 || ci >= 5 {
 			v := jwt.NewHS256(hmacKeys[s.k], s.kid)
 			r.sweep(&sweepSpec{fam: "jwt-hs", tokid: tokid, issued: tok, sample: 3,
-				gens: []func([]byte, func(mutant)){genericMutants, b64Mutants, headerMutants},
+				gens: []func([]byte, func(mutant)){genericMutants, b64Mutants, headerMutants,
+					doubleEditMutants(r.rng.Intn, 400*r.scale),
+					charSubstMutants(map[bool]string{true: "", false: b64alpha + ".=\n"}[ci == 0])},
 				chk: func(t []byte) bool {
 					_, err := jwt.DecodeAndVerify(ctx, string(t), v, time.Unix(0, valid))
 					return err == nil
@@ -473,7 +477,8 @@ func (r *run) jwtRS() {
 		}
 		card := cardOf(s.ks)
 		spec := &sweepSpec{fam: "jwt-rs", tokid: tokid, issued: tok, sample: 2,
-			gens: []func([]byte, func(mutant)){genericMutants, b64Mutants, headerMutants},
+			gens: []func([]byte, func(mutant)){genericMutants, b64Mutants, headerMutants,
+				doubleEditMutants(r.rng.Intn, 600*r.scale), charSubstMutants("AQgw05-_.=\nZz")},
 			chk: func(t []byte) bool {
 				_, err := identity.VerifySelfToken(ctx, string(t), s.user, s.host, card, time.Unix(0, valid))
 				return err == nil
@@ -495,6 +500,140 @@ func (r *run) jwtRS() {
 			r.jwtRSCase(s.ks, valid, []byte(tok2), true, s.user, s.host, nil)
 			r.jwtRSCase(s.ks, valid, []byte(tok2), false, "", "", nil)
 		}
+	}
+}
+
+// ---- JSON leniency ------------------------------------------------------------------
+
+type jsonVariant struct {
+	name string
+	kind byte // 'h' header, 'c' claims
+	text string
+}
+
+func jsonVariants(T int64) []jsonVariant {
+	ts := func(v int64) string { return z(v) }
+	h := func(n, t string) jsonVariant { return jsonVariant{n, 'h', t} }
+	c := func(n, t string) jsonVariant { return jsonVariant{n, 'c', t} }
+	okc := `"iss":"i","aud":"a","sub":"s","iat":` + ts(T) + `,"exp":` + ts(T+600)
+	return []jsonVariant{
+		h("plain", `{"alg":"HS256","typ":"JWT","kid":"k"}`),
+		h("dup-alg-last-wins", `{"alg":"none","alg":"HS256","typ":"JWT","kid":"k"}`),
+		h("dup-alg-last-none", `{"alg":"HS256","alg":"none","typ":"JWT","kid":"k"}`),
+		h("dup-kid", `{"alg":"HS256","typ":"JWT","kid":"other","kid":"k"}`),
+		h("upper-keys", `{"ALG":"HS256","TYP":"JWT","KID":"k"}`),
+		h("mixed-keys", `{"Alg":"HS256","tYp":"JWT","kId":"k"}`),
+		h("exact-after-folded", `{"ALG":"none","alg":"HS256","typ":"JWT","kid":"k"}`),
+		h("folded-after-exact", `{"alg":"HS256","ALG":"none","typ":"JWT","kid":"k"}`),
+		h("unknown-fields", `{"alg":"HS256","typ":"JWT","kid":"k","crit":["x"],"jku":"http://e"}`),
+		h("null-kid", `{"alg":"HS256","typ":"JWT","kid":null}`),
+		h("null-alg", `{"alg":null,"typ":"JWT","kid":"k"}`),
+		h("null-typ", `{"alg":"HS256","typ":null,"kid":"k"}`),
+		h("nested-alg", `{"alg":{"x":"HS256"},"typ":"JWT","kid":"k"}`),
+		h("array-kid", `{"alg":"HS256","typ":"JWT","kid":["k"]}`),
+		h("number-kid", `{"alg":"HS256","typ":"JWT","kid":1}`),
+		h("trailing-garbage", `{"alg":"HS256","typ":"JWT","kid":"k"}x`),
+		h("two-objects", `{"alg":"HS256","typ":"JWT","kid":"k"}{"alg":"none"}`),
+		h("surrounding-space", " \n{\"alg\":\"HS256\",\"typ\":\"JWT\",\"kid\":\"k\"}\t "),
+		h("escaped-value", `{"alg":"HS\u0032\u0035\u0036","typ":"JWT","kid":"k"}`),
+		h("escaped-key", `{"\u0061lg":"HS256","typ":"JWT","kid":"k"}`),
+		h("empty-object", `{}`),
+		h("null", `null`),
+		h("array", `[{"alg":"HS256","typ":"JWT","kid":"k"}]`),
+		h("string", `"HS256"`),
+		h("bom", "\xef\xbb\xbf"+`{"alg":"HS256","typ":"JWT","kid":"k"}`),
+		h("kid-with-nul", `{"alg":"HS256","typ":"JWT","kid":"k\u0000"}`),
+		c("plain", `{`+okc+`}`),
+		c("dup-exp-last-wins", `{"exp":1,`+okc+`}`),
+		c("dup-exp-last-small", `{`+okc+`,"exp":1}`),
+		c("upper-exp", `{"iss":"i","aud":"a","sub":"s","iat":`+ts(T)+`,"EXP":`+ts(T+600)+`}`),
+		c("mixed-iat", `{"iss":"i","aud":"a","sub":"s","Iat":`+ts(T)+`,"exp":`+ts(T+600)+`}`),
+		c("exp-string", `{"iss":"i","aud":"a","sub":"s","iat":`+ts(T)+`,"exp":"`+ts(T+600)+`"}`),
+		c("exp-float", `{"iss":"i","aud":"a","sub":"s","iat":`+ts(T)+`,"exp":`+ts(T+600)+`.0}`),
+		c("exp-float-frac", `{"iss":"i","aud":"a","sub":"s","iat":`+ts(T)+`,"exp":`+ts(T+600)+`.5}`),
+		c("exp-1e3", `{"iss":"i","aud":"a","sub":"s","iat":0,"exp":1e3}`),
+		c("exp-1e10", `{"iss":"i","aud":"a","sub":"s","iat":0,"exp":1e10}`),
+		c("exp-huge-exponent", `{"iss":"i","aud":"a","sub":"s","iat":0,"exp":1e400}`),
+		c("exp-big-int", `{"iss":"i","aud":"a","sub":"s","iat":0,"exp":99999999999999999999}`),
+		c("exp-max-int64", `{"iss":"i","aud":"a","sub":"s","iat":0,"exp":9223372036854775807}`),
+		c("exp-negative", `{"iss":"i","aud":"a","sub":"s","iat":-100,"exp":-1}`),
+		c("exp-null", `{"iss":"i","aud":"a","sub":"s","iat":`+ts(T)+`,"exp":null}`),
+		c("exp-missing", `{"iss":"i","aud":"a","sub":"s","iat":`+ts(T)+`}`),
+		c("iat-missing", `{"iss":"i","aud":"a","sub":"s","exp":`+ts(T+600)+`}`),
+		c("exp-bool", `{"iss":"i","aud":"a","sub":"s","iat":`+ts(T)+`,"exp":true}`),
+		c("exp-nested", `{"iss":"i","aud":"a","sub":"s","iat":`+ts(T)+`,"exp":{"v":`+ts(T+600)+`}}`),
+		c("exp-leading-zero", `{"iss":"i","aud":"a","sub":"s","iat":`+ts(T)+`,"exp":0`+ts(T+600)+`}`),
+		c("exp-plus", `{"iss":"i","aud":"a","sub":"s","iat":`+ts(T)+`,"exp":+`+ts(T+600)+`}`),
+		c("sub-nested", `{"iss":"i","aud":"a","sub":{"x":"s"},"iat":`+ts(T)+`,"exp":`+ts(T+600)+`}`),
+		c("aud-array", `{"iss":"i","aud":["a"],"sub":"s","iat":`+ts(T)+`,"exp":`+ts(T+600)+`}`),
+		c("iss-null", `{"iss":null,"aud":"a","sub":"s","iat":`+ts(T)+`,"exp":`+ts(T+600)+`}`),
+		c("iss-number", `{"iss":5,"aud":"a","sub":"s","iat":`+ts(T)+`,"exp":`+ts(T+600)+`}`),
+		c("unknown-fields", `{`+okc+`,"nbf":`+ts(T+10000)+`,"jti":"x","admin":true}`),
+		c("extra-nested", `{`+okc+`,"x":{"exp":1,"y":[1,2,{"z":null}]}}`),
+		c("trailing-garbage", `{`+okc+`}x`),
+		c("two-objects", `{`+okc+`}{"exp":99999999999}`),
+		c("surrounding-space", "\n {"+okc+"} \n"),
+		c("empty-object", `{}`),
+		c("null", `null`),
+		c("array", `[]`),
+		c("string", `"x"`),
+		c("number", `5`),
+		c("empty", ``),
+		c("escaped-key", `{"iss":"i","aud":"a","sub":"s","iat":`+ts(T)+`,"\u0065xp":`+ts(T+600)+`}`),
+		c("sub-escapes", `{"iss":"i","aud":"a","sub":"s\u0000\n\ud800","iat":`+ts(T)+`,"exp":`+ts(T+600)+`}`),
+		c("invalid-utf8", "{\"iss\":\"i\",\"aud\":\"a\",\"sub\":\"s\xff\",\"iat\":"+ts(T)+",\"exp\":"+ts(T+600)+"}"),
+		c("deep-nesting", `{`+okc+`,"x":`+strings.Repeat("[", 200)+strings.Repeat("]", 200)+`}`),
+	}
+}
+
+func parsedPin(hp *Hdr, cp *Claims) string {
+	un := func(h string) string { b, _ := hex.DecodeString(h); return strconv.Quote(string(b)) }
+	switch {
+	case hp != nil:
+		return "alg=" + un(hp.Alg) + " typ=" + un(hp.Typ) + " kid=" + un(hp.Kid)
+	case cp != nil:
+		return "iss=" + un(cp.Iss) + " aud=" + un(cp.Aud) + " sub=" + un(cp.Sub) + " scope=" + un(cp.Scope) +
+			" typ=" + un(cp.Typ) + " iat=" + cp.Iat + " exp=" + cp.Exp
+	}
+	return "rejected"
+}
+
+// jwtJSON: tokens whose header or claims JSON the issuer would never write,
+// correctly signed (so the signature is not what decides): the model is given
+// what encoding/json makes of the segment and must agree on the outcome, and
+// what encoding/json makes of it is pinned (jsonPins) so that a change in
+// leniency, in the package or in the library, is noticed.
+func (r *run) jwtJSON() {
+	r.initKeys()
+	T := int64(1700000000)
+	const ns = int64(time.Second)
+	vs := jsonVariants(T)
+	plainH, plainC := b64([]byte(vs[0].text)), ""
+	for _, v := range vs {
+		if v.kind == 'c' && v.name == "plain" {
+			plainC = b64([]byte(v.text))
+		}
+	}
+	for _, v := range vs {
+		txt := plainH + "." + b64([]byte(v.text))
+		if v.kind == 'h' {
+			txt = b64([]byte(v.text)) + "." + plainC
+		}
+		tok := []byte(txt + "." + b64(hmacOf(1, []byte(txt))))
+		for _, now := range []int64{(T + 10) * ns, 500 * ns, -50 * ns} {
+			r.jwtHSCase(1, "k", now, tok, nil)
+		}
+		_, hp, cp := parseSegs(tok)
+		got := ""
+		if v.kind == 'h' {
+			got = parsedPin(hp, nil)
+		} else {
+			got = parsedPin(nil, cp)
+		}
+		c := &Case{Stream: "jwt-json", Op: "jsonpin", Note: string(v.kind) + ":" + v.name, Data: hx16([]byte(v.text)),
+			User: hx16([]byte(jsonPins[string(v.kind)+":"+v.name])), Host: hx16([]byte(got))}
+		c.Obs.Ok = jsonPins[string(v.kind)+":"+v.name] == got
+		r.emit(c)
 	}
 }
 
@@ -521,6 +660,7 @@ func (r *run) kidMatrix() {
 		{"one-key", []cardKey{mk(0, "only", 0, T+1000)}, []int{0}},
 		{"two-keys", []cardKey{mk(1, "first", T-500, T+500), mk(2, "last", T-100, T+2000)}, []int{1, 2}},
 		{"empty-id-first", []cardKey{mk(2, "", T-500, T+500), mk(0, "named", 0, T+2000)}, []int{2, 0}},
+		{"wrapping-windows", []cardKey{mk(1, "top", 1, int64(^uint64(0)>>1)), mk(2, "neg", -5, int64(^uint64(0)>>1)-62135596800)}, []int{1, 2}},
 	}
 	claims := mustJSON(map[string]interface{}{"iss": ".", "sub": user, "aud": host, "iat": T - 3600, "exp": T + 86400})
 	cs := b64(claims)
@@ -648,6 +788,21 @@ func (r *run) claims() {
 	}
 	// time: boundaries at 1 s and 1 ns
 	const ns = int64(time.Second)
+	const maxI = int64(^uint64(0) >> 1)
+	const u2i = int64(62135596800)
+	// claim times at the int64 wrap of time.Unix and at the saturation of Add
+	for _, p := range [][2]int64{{0, maxI}, {maxI, 1800000000}, {0, maxI - u2i}, {0, maxI - u2i + 1}, {-maxI - 1, 1800000000},
+		{-maxI - 1, -maxI - 1}, {-maxI - 1 + 299, 1800000000}, {-maxI - 1 + 300, 1800000000}, {-u2i - 1, 5},
+		{maxI - u2i, maxI - u2i}, {maxI - u2i + 1, maxI}, {-u2i, -u2i + 1}, {-u2i - 1, 1 << 62}, {1 << 62, 1<<62 + 1}} {
+		for _, now := range []int64{0, -1, 1700000000 * ns, maxI, -maxI - 1, 1} {
+			cl := &jwt.ClaimSet{Iat: p[0], Exp: p[1]}
+			c := &Case{Stream: "jwttime", Op: "jwttime", C: claimsOf(cl), Now: z(now), Note: "wrap"}
+			_, err := jwt.CheckTime(cl, time.Unix(0, now))
+			c.Obs.Err = jwtErr(err)
+			c.Obs.Ok = err == nil
+			r.emit(c)
+		}
+	}
 	for _, p := range [][2]int64{{1700000000, 1700000600}, {0, 0}, {100, 50}, {-1000, -400}, {1 << 40, 1<<40 + 1}, {500, 200}} {
 		iat, exp := p[0], p[1]
 		for _, now := range []int64{(iat - 301) * ns, (iat-300)*ns - 1, (iat - 300) * ns, (iat-300)*ns + 1, (iat - 299) * ns, iat * ns,
